@@ -121,6 +121,10 @@ var zzStreams = []string{
 	"<body style=\"display:inline\"><span>" + zzLong + "</span>", "<html style=\"display:inline\"><body style=\"display:inline\">" + zzLong,
 	"<a href=\"javascript:x\">" + zzLong + "</a>", "<template><p>" + zzLong + "</p></template>", "<math><mi>x</mi></math>" + zzLong,
 	"<ul><li>" + zzLong + "<ul><li>" + zzLong, "<pre>\n" + zzLong, "<br><br><br>", "<img src=x><img src=y>", "<h1></h1><h2></h2>",
+	// hidden parts of retained structures
+	"<p>" + zzLong + `</p><figure><img src="f.png"><figcaption hidden>capt <a href="/x">l</a></figcaption></figure><p>` + zzLong + "</p>",
+	"<p>" + zzLong + `</p><figure hidden><img src="f.png"><figcaption>capt</figcaption></figure><table><thead hidden><tr><th>a</th><th>b</th></tr></thead><tr hidden><td>c</td><td>d</td></tr><tr><td hidden>e</td><td>f</td></tr></table><p>` + zzLong + "</p>",
+	"<p>" + zzLong + `</p><figure><picture hidden><img src="f.png"></picture><figcaption><a href="/x" hidden>l</a></figcaption></figure><video hidden src="v.mp4"></video><p>` + zzLong + "</p>",
 	// metadata oddities
 	`<div itemscope itemtype="http://schema.org/ImageObject"><span itemprop="caption">c</span></div><p>` + zzLong + `</p>`,
 	`<div itemscope itemtype="http://schema.org/Article"><div itemprop="image" itemscope itemtype="http://schema.org/ImageObject"></div><span itemprop="author"></span><span itemprop="publisher" itemscope></span></div><p>` + zzLong + `</p>`,
